@@ -597,7 +597,8 @@ func ruleParserShapes(c *core.Ctx) {
 						c.Fail(rule, key, x.Pos(), "type assertion without comma-ok on a parser node: an input the grammar shapes differently (an error node nested in a container) panics instead of being rejected")
 					case *ssa.IndexAddr:
 						// X[i] with i the index of a range over Y (Y != X), in the node builders
-						if !strings.Contains(fn.Name(), "nodify") && !strings.Contains(fn.Name(), "extract") {
+						// and in the private helpers only they call
+						if !isNodeBuilderOrHelper(c, fn, 0) {
 							continue
 						}
 						idxPhi, ok := core.Canon(x.Index).(*ssa.BinOp)
@@ -664,7 +665,7 @@ func ruleParserShapes(c *core.Ctx) {
 						}
 						ok2 := core.Guarded(fn, x, core.Eq(isLen(xs), isLen(y)))
 						c.Check(ok2, rule, key, x.Pos(), "indexed slice and ranged slice have checked equal lengths",
-							"a slice is indexed with the loop variable of a range over another slice without a check that the two have the same length: a signature with fewer names than types indexes out of range (panic)")
+							"a slice is indexed with the loop variable of a range over another slice without a check that the two have the same length: a signature with fewer names than types indexes out of range, or leaves members of the list made for them without a type (panic, then or at the first use)")
 					}
 				}
 			}
@@ -987,4 +988,25 @@ func ruleNilOnError(c *core.Ctx, d *decoderSet, rule string) {
 		}
 	}
 	c.Pass(rule, "decoder results", token.NoPos, fmt.Sprintf("%d pointer-like results of decoder calls examined", n))
+}
+
+// isNodeBuilderOrHelper: a node builder of the signature parser (nodify…,
+// extract…) or an unexported function every static caller of which is one.
+func isNodeBuilderOrHelper(c *core.Ctx, fn *ssa.Function, depth int) bool {
+	if strings.Contains(fn.Name(), "nodify") || strings.Contains(fn.Name(), "extract") {
+		return true
+	}
+	if depth > 2 || fn.Object() == nil || fn.Object().Exported() || fn.Signature.Recv() != nil {
+		return false
+	}
+	sites, taken := c.CallSites()
+	if taken[fn] || len(sites[fn]) == 0 {
+		return false
+	}
+	for _, s := range sites[fn] {
+		if !isNodeBuilderOrHelper(c, s.Parent(), depth+1) {
+			return false
+		}
+	}
+	return true
 }
